@@ -14,7 +14,7 @@ RULE = ("cases = generated 2D plotfiles (rectangular domains, non-zero origin, n
         "one evaluation = one flatten compared bitwise with the model's covering grid. distinct = "
         "hash(model, fields, limit, mode); non-trivial = >=2 levels and a non-square domain or box")
 ASSUMPTIONS = ["generator/refparse trusted base", "pool shim M1 with shuffled schedules"]
-REQUIRED_OBS = {"flattened": 100, "calls:expand_array": 100, "parallel": 30, "with_grid_level": 30}
+REQUIRED_OBS = {"flattened": 100, "calls:expand_array": 100, "parallel": 30, "with_grid_level": 30, "cli_runs": 20}
 
 
 def cases(tier, seed):
@@ -119,6 +119,43 @@ def run_case(case, work, rec):
                                   key=key, witness={"config": descr, "differences": probs[:5]})
                 else:
                     rec.ok(key, m.nlevels >= 2 and L >= 1 and nonsq)
+    # the mandoline entry point (array format) must save what the API returns
+    cli = common.repo_module("amr_kitchen.mandoline.cli")
+    for fl in flists[:2]:
+        limit = rng.choice([None] + list(range(finest + 1)))
+        L = finest if limit is None else limit
+        out = os.path.join(work, "cli_flat")
+        args = ["mandoline", "-v"] + list(fl) + ["-f", "array", "-o", out, "-V", "0"]
+        if limit is not None:
+            args += ["-L", str(limit)]
+        if rng.random() < 0.5:
+            args.append("-s")
+        args.append(path)
+        key = (digest, "cli", tuple(fl), limit)
+        poison.set_poison(np.nan)
+        pools.CTL.reset(mode="inproc", seed=rng.randrange(10 ** 6))
+        try:
+            with common.argv(args):
+                cli.main()
+            z = np.load(out + ".npz")
+        except (Exception, SystemExit) as e:
+            rec.violation(f"mandoline entry point raised {type(e).__name__}: {' '.join(args[1:-1])}", key=key,
+                          witness={"argv": args[1:-1], "exc": repr(e)[:300]})
+            continue
+        rec.count("cli_runs")
+        probs = []
+        want = list(names) if fl == ["all"] else [f for f in fl if f != "grid_level"]
+        for nm in want:
+            exp = gen.covering(m, names.index(nm), L).T
+            if nm not in z.files or not refparse.biteq(z[nm], exp):
+                probs.append(f"saved field {nm} is not the covering grid of level {L}")
+        if ("grid_level" in fl or fl == ["all"]) and not np.array_equal(z["grid_level"], gen.level_map(m, L).T):
+            probs.append("saved grid_level is not the level map")
+        if probs:
+            rec.violation(f"mandoline entry point saved something else than the covering grid ({probs[0]}): {' '.join(args[1:-1])}",
+                          key=key, witness={"argv": args[1:-1], "differences": probs[:3]})
+        else:
+            rec.ok(key, m.nlevels >= 2 and L >= 1 and nonsq)
     for k, v in contracts.COUNTS.items():
         rec.count("calls:" + k, v - n0.get(k, 0))
     for f in contracts.FAILS[:5]:
